@@ -49,7 +49,12 @@ Inductive tok : Type :=
                                       tup_actual = 0: no <time-modification> *)
 | TBackup (d : Z)
 | TForward (d : Z)
-| TTempo (q : Q).                  (* <direction><sound tempo="q"/> *)
+| TTempo (q : Q)                   (* <direction><sound tempo="q"/> *)
+| THarmony (root : option (Z * option Z))          (* <root>: step 0..6, optional <root-alter> *)
+           (kind : Z)                              (* index into CHORD_KINDS; -1: <kind> absent or empty *)
+           (degs : list (Z * option Z * Z))        (* <degree>: value, optional alter, type 0 add 1 subtract 2 alter *)
+           (bass : option (Z * option Z))
+           (offset : option Z).                    (* <offset> in divisions *)
 
 Definition measure := list tok.    (* element tokens only (no markers) *)
 Record part := mkPart { p_chan : Z; p_prog : Z; p_measures : list measure }.
@@ -146,7 +151,8 @@ Inductive ev : Type :=
 | EvNote (part : Z) (rest : bool) (voice chan prog pitch : Z) (onset secs : Q) (rnum rden : Z)
 | EvTempo (part : Z) (t q : Q)
 | EvTime (n d : Z) (t : Q)
-| EvKey (k mode : Z) (t : Q).
+| EvKey (k mode : Z) (t : Q)
+| EvChord (t : Q) (figure : list Z).
 
 (** * Arithmetic *)
 
@@ -212,6 +218,85 @@ Definition close_measure_events (s : st) : list ev :=
   (match m_tsig s with Some (n, d, t) => [EvTime n d t] | None => [] end) ++
   (match m_ksig s with Some (k, m, t) => [EvKey k m t] | None => [] end).
 
+(** * Chord symbols (ChordSymbol._parse / get_figure_string); strings are lists of character codes *)
+Definition step_char (stp : Z) : Z := nth (Z.to_nat stp) [67; 68; 69; 70; 71; 65; 66] 72.   (* C D E F G A B, else H *)
+
+(** ChordSymbol._alter_to_string: bb b "" # ## ; anything else raises. *)
+Definition alter_string (a : Z) : option (list Z) :=
+  match a with
+  | -2 => Some [98; 98] | -1 => Some [98] | 0 => Some [] | 1 => Some [35] | 2 => Some [35; 35]
+  | _ => None
+  end.
+Definition opt_alter (a : option Z) : option (list Z) :=
+  match a with None => Some [] | Some x => alter_string x end.
+
+Fixpoint dec_pos (fuel : nat) (v : Z) (acc : list Z) : list Z :=
+  match fuel with
+  | O => acc
+  | S f => let acc' := (48 + v mod 10) :: acc in if v / 10 =? 0 then acc' else dec_pos f (v / 10) acc'
+  end.
+Definition dec (v : Z) : list Z := if v <? 0 then 45 :: dec_pos 40 (- v) [] else dec_pos 40 v [].
+
+Definition is_nil (l : list Z) : bool := match l with [] => true | _ => false end.
+Fixpoint str_eqb (a b : list Z) : bool :=
+  match a, b with
+  | [], [] => true
+  | x :: a', y :: b' => (x =? y) && str_eqb a' b'
+  | _, _ => false
+  end.
+
+(** _parse_pitch for <root>/<bass>: step ++ alter string; chord symbols of a transposing part are rejected. *)
+Definition harm_pitch (transp : Z) (p : Z * option Z) : option (list Z) :=
+  match opt_alter (snd p) with
+  | None => None
+  | Some als => if transp =? 0 then Some (step_char (fst p) :: als) else None
+  end.
+
+(** _parse_degree. *)
+Definition degree_string (d : Z * option Z * Z) : option (list Z) :=
+  let '(v, a, ty) := d in
+  match opt_alter a with
+  | None => None
+  | Some als =>
+      match ty with
+      | 0 => Some ((if is_nil als then [97; 100; 100] else []) ++ als ++ dec v)    (* add *)
+      | 1 => Some ([110; 111] ++ dec v)                                             (* subtract: "no" *)
+      | 2 => if is_nil als then None else Some (als ++ dec v)                        (* alter *)
+      | _ => None
+      end
+  end.
+Fixpoint degree_strings (ds : list (Z * option Z * Z)) : option (list (list Z)) :=
+  match ds with
+  | [] => Some []
+  | d :: r => match degree_string d, degree_strings r with
+              | Some x, Some xs => Some (x :: xs)
+              | _, _ => None
+              end
+  end.
+
+Definition NC : list Z := [78; 46; 67; 46].
+Definition kind_abbrev (kind : Z) : option (list Z) :=
+  if kind =? -1 then Some []
+  else if (0 <=? kind) && (kind <? Z.of_nat (length CHORD_KINDS)) then Some (snd (nth (Z.to_nat kind) CHORD_KINDS ([], [])))
+  else None.
+
+(** The figure string, or None when any ChordSymbolParseError is raised. *)
+Definition harmony_figure (transp : Z) (root : option (Z * option Z)) (kind : Z)
+           (degs : list (Z * option Z * Z)) (bass : option (Z * option Z)) : option (list Z) :=
+  let rs := match root with None => Some None | Some p => option_map Some (harm_pitch transp p) end in
+  let bs := match bass with None => Some None | Some p => option_map Some (harm_pitch transp p) end in
+  match rs, kind_abbrev kind, degree_strings degs, bs with
+  | Some r, Some k, Some ds, Some b =>
+      if str_eqb k NC then Some NC
+      else match r with
+           | None => None                                   (* "Chord symbol must have a root" *)
+           | Some r' =>
+               Some (r' ++ k ++ flat_map (fun d => 40 :: d ++ [41]) ds ++
+                     match b with Some b' => 47 :: b' | None => [] end)
+           end
+  | _, _, _, _ => None
+  end.
+
 (** * One token *)
 Definition step (s : st) (t : tok) : st * list ev :=
   match t with
@@ -253,6 +338,16 @@ Definition step (s : st) (t : tok) : st * list ev :=
   | TBackup d => (set_tp s (Qred (s_tp s - Qred (secs_of (s_div s) (s_qpm s) d))), [])
   | TForward d => (set_tp s (Qred (s_tp s + Qred (secs_of (s_div s) (s_qpm s) d))), [])
   | TTempo q => (set_qpm s (norm_qpm q), [EvTempo (s_part s) (s_tp s) (norm_qpm q)])
+  | THarmony root kind degs bass offset =>
+      match harmony_figure (s_transp s) root kind degs bass with
+      | None => (raise s E_CONVERSION, [])                 (* ChordSymbolParseError *)
+      | Some fig =>
+          let t := match offset with
+                   | None => s_tp s
+                   | Some o => Qred (s_tp s + Qred (secs_of (s_div s) (s_qpm s) o))
+                   end in
+          (s, [EvChord t fig])
+      end
   end.
 
 Fixpoint run_toks (s : st) (ts : list tok) : st * list ev :=
@@ -270,6 +365,7 @@ Record oseq := mkOSeq {
   q_ksigs : list (Q * Z * Z);          (* time, key (proto enum), mode *)
   q_tempos : list (Q * Q);             (* time, qpm *)
   q_notes : list onote;
+  q_chords : list (Q * list Z);        (* time, figure (CHORD_SYMBOL text annotations) *)
   q_total : Q }.
 
 Definition Qmax0 (q : Q) : Q := if Qle_bool 0 q then q else 0%Q.
@@ -295,6 +391,10 @@ Definition ev_notes (es : list ev) : list onote :=
     | EvNote p false v c g pitch onset sec n d =>
         let st_ := Qmax0 onset in [mkONote p v c g pitch st_ (Qred (st_ + sec)) n d]
     | _ => [] end) es.
+
+(** get_chord_symbols: [not in] is identity for ChordSymbol (no __eq__), so nothing is removed. *)
+Definition ev_chords (es : list ev) : list (Q * list Z) :=
+  flat_map (fun e => match e with EvChord t f => [(t, f)] | _ => [] end) es.
 
 (** music_proto_keys[key + 7] with Python's negative indexing. *)
 Definition proto_key (k : Z) : option Z :=
@@ -325,5 +425,5 @@ Definition run_doc (sc : score) : Z + oseq :=
       let tm := ev_tempos0 es in
       let tm := match tm with [] => [(0%Q, s_qpm s)] | _ => tm end in
       inr (mkOSeq (map (fun x => let '(n, d, t) := x in (t, n, d)) (dedup (ev_times es)))
-                  ks' tm (ev_notes es) (s_total s))
+                  ks' tm (ev_notes es) (ev_chords es) (s_total s))
   end.
